@@ -673,6 +673,28 @@ def build_cases(ctx, lib, profile):
             for n in (0, 8, 40):
                 add([('flip', mk(c['type'], bytes(n), g.nseq(), crc=12345)), ('valid', g.valid_msg())], M24, None, 1, 1, 'per-class-unbuildable',
                     '%s,%d,%d' % (woe, r.randrange(2), r.randrange(2)))
+    # for EVERY registered class: CRC-valid messages whose payload makes unpack() fail, one family per exception TYPE it raises
+    # (the dropped message is the known finding; on_data must not raise and the following valid message must be delivered)
+    names = [c['name'] for c in lib.classes + lib.unbuildable]
+    table = {}
+    for o in vf.run_parallel([vf.PY, HARNESS, 'badpayloads'], names, env=vf.IMPL_ENV, timeout=900):
+        table.update(json.loads(o))
+    exc_types = {}
+    for name in names:
+        rec = table[name]
+        exc_types[name] = {e: v['count'] for e, v in sorted(rec['by_exception'].items())}
+        ver = (lib.by_name[name].get('version') or 0)
+        for e, v in sorted(rec['by_exception'].items()):
+            ctx.count('unpack-raises:' + e)
+            for pl in (v['payloads'] if profile == 'C04' else v['payloads'][:1]):
+                bad = mk(rec['type'], bytes.fromhex(pl), g.nseq(), ver=ver)
+                add([('unparseable', bad), ('valid', g.valid_msg())], M24, None, 1, 1, 'per-class-unparseable:' + e)
+            bad = mk(rec['type'], bytes.fromhex(v['payloads'][0]), g.nseq(), ver=ver)
+            add([('valid', g.valid_msg()), ('unparseable', bad), ('valid', g.valid_msg()), ('valid', g.valid_msg())], M24, None, r.randrange(2), r.randrange(2),
+                'per-class-unparseable:' + e)
+    ctx.coverage['unpack_exception_types_per_class'] = exc_types
+    ctx.coverage['unpack_exception_types'] = sorted({e for d in exc_types.values() for e in d})
+    ctx.coverage['unpack_candidates_tried'] = sum(table[n]['tried'] for n in names)
     big_cases(ctx, lib, profile, add_explicit)
     # bounded-exhaustive token sequences
     import itertools
@@ -808,7 +830,7 @@ def roundtrip_check(ctx, eng, rt):
 def common_evidence(ctx, eng, profile, cases):
     ctx.coverage['rule'] = (
         'streams = concatenations of tokens of %d kinds (%s); every registered payload class (%d buildable by the encoder, %d not) appears alone, '
-        'followed by another message and between junk, with its default payload and a perturbed one, and as two or three messages of the same class with different parseable field values; size classes 1 KiB - 70 KiB (large valid, corrupted, truncated and false-header candidates with split points inside them, at their ends and fixed-size reads); bounded-exhaustive token sequences, '
+        'followed by another message and between junk, with its default payload and a perturbed one, and as two or three messages of the same class with different parseable field values; for every class CRC-valid messages whose payload makes unpack() raise, one family per exception type found by a sweep over every length 0..size+8, constant / random bodies, every byte forced to 0xFF/0x00/0x80 and all values of the leading tag bytes (types found are listed in unpack_exception_types_per_class); size classes 1 KiB - 70 KiB (large valid, corrupted, truncated and false-header candidates with split points inside them, at their ends and fixed-size reads); bounded-exhaustive token sequences, '
         'for every class also CRC-failing variants (bit flipped in payload / crc field / header fields, and another message whose type field is re-pointed at the class) '
         'under each warn_on_error setting; sequences under all 16 (max_payload_len_bytes in {0,16,exact,2^24}) x (return_bytes, return_offset) settings, random sequences of 3-9 tokens, '
         'the logging options warn_on_error (none/likely/all), warn_on_gap, warn_on_unrecognized rotate over all streams (log output suppressed), '
